@@ -333,6 +333,8 @@ def get_blob(dgram: bytes, start_index: int) -> Tuple[bytes, int]:
       ParseError if the datagram could not be parsed.
     """
     size, int_offset = get_int(dgram, start_index)
+    if size < 0:
+        raise OscTypeParseError(f'Invalid blob size {size}')
     # Make the size a multiple of 32 bits.
     total_size = size + (-size % _BLOB_DGRAM_PAD)
     end_index = int_offset + size
@@ -460,6 +462,10 @@ class OscBundle(object):
             while self._dgram[index:]:
                 # Get the sub content size.
                 content_size, index = get_int(self._dgram, index)
+                if content_size < 0\
+                or content_size > len(self._dgram) - index:
+                    raise OscBundleParseError(
+                        f'Invalid bundle element size {content_size}')
                 # Get the datagram for the sub content.
                 content_dgram = self._dgram[index:index + content_size]
                 # Increment our position index up to the next possible content.
